@@ -104,6 +104,30 @@ Theorem C02_wye_delta_two_port : forall r x g b rr xr vf vt,
 Proof. exact wye_delta_two_port. Qed.
 Print Assumptions C02_wye_delta_two_port.
 
+(* T-model transformer end to end: row with the _wye_delta parameters -> makeYbus stamps -> pfsoln flows =
+   S_N v conj(i) of the documented T circuit behind the ideal transformer TAP e^{j SHIFT}, for all voltages *)
+Theorem C02_t_model_row_flows : forall br e vf vt sn r x g b rr xr,
+  b_stat br = true -> b_ra br == 0 -> b_xa br == 0 ->
+  ~ (b_r br) * (b_r br) + (b_x br) * (b_x br) == 0 -> ~ b_tap br == 0 -> re e * re e + im e * im e == 1 ->
+  (b_r br, b_x br, b_g br, b_b br, b_ga br, b_ba br) = wye_delta_core r x g b rr xr ->
+  let za := wd_za r x rr xr in let zb := wd_zb r x rr xr in let yc := mkC g b in
+  ~ za ==c C0 -> ~ zb ==c C0 -> ~ yc ==c C0 -> ~ Cadd (Cadd za zb) (Cmul (Cmul za zb) yc) ==c C0 ->
+  let vf' := Cdiv vf (Cscale (b_tap br) e) in
+  let i := t_circuit_I za zb yc vf' vt in
+  Ceq2 (flows (stamps_core br e) vf vt sn)
+       (Cscale sn (Cmul vf' (Cconj (fst i))), Cscale sn (Cmul vt (Cconj (snd i)))).
+Proof. exact t_model_row_flows. Qed.
+Print Assumptions C02_t_model_row_flows.
+Theorem C02_flows_pi_circuit : forall br e vf vt sn,
+  b_stat br = true -> b_ra br == 0 -> b_xa br == 0 ->
+  ~ (b_r br) * (b_r br) + (b_x br) * (b_x br) == 0 -> ~ b_tap br == 0 -> re e * re e + im e * im e == 1 ->
+  let vf' := Cdiv vf (Cscale (b_tap br) e) in
+  let i := pi_circuit_I (b_r br) (b_x br) (b_g br) (b_b br) (b_ga br) (b_ba br) vf' vt in
+  Ceq2 (flows (stamps_core br e) vf vt sn)
+       (Cscale sn (Cmul vf' (Cconj (fst i))), Cscale sn (Cmul vt (Cconj (snd i)))).
+Proof. exact flows_pi_circuit. Qed.
+Print Assumptions C02_flows_pi_circuit.
+
 (* tap changer: with the sqrt / arctan oracles satisfying their defining equations, the adjusted rated voltage and
    the added angle are modulus and argument of u1 * (1 + diff*pct/100 * e^{+-j phi}) (X + jY below) *)
 Theorem C02_tap_polar_documented : forall X Y vn ca sa,
